@@ -570,7 +570,7 @@ Ref World::apply_forms_misc(const Op& op)
       const uint64_t which = uint64_t(op.a[0]) % 6;
       switch (which) {
       case 0: if (not classics.empty()) { auto& h = classics[size_t(uint64_t(op.a[1]) % classics.size())]; const ipr::Expr& x = Eo(op.a[2], h.node); h.set(&x); if (Rec* rc = rec(h.node)) rc->exp.set_r("implementation", nref(x)); return h.node; } break;
-      case 1: if (not typed_exprs.empty()) { auto& h = typed_exprs[size_t(uint64_t(op.a[1]) % typed_exprs.size())]; const ipr::Type& t = T(op.a[2]); h.set(&t); if (Rec* rc = rec(h.node)) rc->exp.set_r("type", nref(t)); return h.node; } break;
+      case 1: if (not typed_exprs.empty()) { auto& h = typed_exprs[size_t(uint64_t(op.a[1]) % typed_exprs.size())]; const ipr::Type& t = To(op.a[2], h.node); h.set(&t); if (Rec* rc = rec(h.node)) rc->exp.set_r("type", nref(t)); return h.node; } break;
       case 2: if (auto n = id_exprs.pick(op.a[1])) { const ipr::Expr& x = Eo(op.a[2], nref(*n)); n->decls = Optional<ipr::Expr>(x); if (Rec* rc = rec(nref(*n))) rc->exp.set_r("resolution", nref(x)); return nref(*n); } break;
       case 3: if (auto n = news.pick(op.a[1])) { n->global = uint64_t(op.a[2]) % 2; if (Rec* rc = rec(nref(*n))) rc->exp.set_s("global_requested", int64_t(n->global)); return nref(*n); } break;
       case 4: if (auto n = insts.pick(op.a[1])) { const ipr::Expr& x = Eo(op.a[2], nref(*n)); n->result = Optional<ipr::Expr>(x); if (Rec* rc = rec(nref(*n))) { rc->exp.set_r("instance", nref(x)); rc->exp.erase("type"); rc->borrow = &x; } return nref(*n); } break;
@@ -580,14 +580,13 @@ Ref World::apply_forms_misc(const Op& op)
    }
    case OP_set_udt_fields: {
       const uint64_t which = uint64_t(op.a[0]) % 6;
-      const ipr::Name& n = N(op.a[2]);
       switch (which) {
-      case 0: if (auto u = classes.pick(op.a[1])) { u->id = Optional<ipr::Name>(n); if (Rec* rc = rec(nref(*u))) rc->exp.set_r("name", nref(n)); return nref(*u); } break;
-      case 1: if (auto u = unions.pick(op.a[1])) { u->id = Optional<ipr::Name>(n); if (Rec* rc = rec(nref(*u))) rc->exp.set_r("name", nref(n)); return nref(*u); } break;
-      case 2: if (auto u = namespaces.pick(op.a[1])) { u->id = Optional<ipr::Name>(n); if (Rec* rc = rec(nref(*u))) rc->exp.set_r("name", nref(n)); return nref(*u); } break;
-      case 3: if (auto u = closures.pick(op.a[1])) { u->id = Optional<ipr::Name>(n); if (Rec* rc = rec(nref(*u))) rc->exp.set_r("name", nref(n)); return nref(*u); } break;
-      case 4: if (auto u = enums.pick(op.a[1])) { u->id = Optional<ipr::Name>(n); if (Rec* rc = rec(nref(*u))) rc->exp.set_r("name", nref(n)); return nref(*u); } break;
-      default: if (auto u = enums.pick(op.a[1])) { const ipr::Type& t = T(op.a[3]); if (nref(t) == nref(*u)) break; u->underlying = Optional<ipr::Type>(t); if (Rec* rc = rec(nref(*u))) rc->exp.set_r("base", nref(t)); return nref(*u); } break;
+      case 0: if (auto u = classes.pick(op.a[1])) { const ipr::Name& n = No(op.a[2], nref(*u)); u->id = Optional<ipr::Name>(n); if (Rec* rc = rec(nref(*u))) rc->exp.set_r("name", nref(n)); return nref(*u); } break;
+      case 1: if (auto u = unions.pick(op.a[1])) { const ipr::Name& n = No(op.a[2], nref(*u)); u->id = Optional<ipr::Name>(n); if (Rec* rc = rec(nref(*u))) rc->exp.set_r("name", nref(n)); return nref(*u); } break;
+      case 2: if (auto u = namespaces.pick(op.a[1])) { const ipr::Name& n = No(op.a[2], nref(*u)); u->id = Optional<ipr::Name>(n); if (Rec* rc = rec(nref(*u))) rc->exp.set_r("name", nref(n)); return nref(*u); } break;
+      case 3: if (auto u = closures.pick(op.a[1])) { const ipr::Name& n = No(op.a[2], nref(*u)); u->id = Optional<ipr::Name>(n); if (Rec* rc = rec(nref(*u))) rc->exp.set_r("name", nref(n)); return nref(*u); } break;
+      case 4: if (auto u = enums.pick(op.a[1])) { const ipr::Name& n = No(op.a[2], nref(*u)); u->id = Optional<ipr::Name>(n); if (Rec* rc = rec(nref(*u))) rc->exp.set_r("name", nref(n)); return nref(*u); } break;
+      default: if (auto u = enums.pick(op.a[1])) { const ipr::Type& t = To(op.a[3], nref(*u)); if (nref(t) == nref(*u)) break; u->underlying = Optional<ipr::Type>(t); if (Rec* rc = rec(nref(*u))) rc->exp.set_r("base", nref(t)); return nref(*u); } break;
       }
       return nullptr;
    }
@@ -660,7 +659,7 @@ Ref World::apply_forms_misc(const Op& op)
             if (Rec* rc = rec(nref(*n))) { rc->exp.append("names", nref(id)); rc->exp.set_s("specifiers", int64_t(n->specs)); rc->exp.set_s("mode", int64_t(n->binding_mode)); }
             return nref(*n);
          } break;
-      case 2: if (auto n = sbindings.pick(op.a[1])) { const ipr::Expr& x = E(op.a[2]); n->init = &x; if (Rec* rc = rec(nref(*n))) rc->exp.set_r("initializer", nref(x)); return nref(*n); } break;
+      case 2: if (auto n = sbindings.pick(op.a[1])) { const ipr::Expr& x = Eo(op.a[2], nref(*n)); n->init = &x; if (Rec* rc = rec(nref(*n))) rc->exp.set_r("initializer", nref(x)); return nref(*n); } break;
       case 3: if (auto n = sbindings.pick(op.a[1])) { if (decls.empty()) break; const ipr::Decl* d = decls.pick(op.a[2]); SUT(n->decl_seq.push_back(d)); if (Rec* rc = rec(nref(*n))) rc->exp.append("bindings", nref(*d)); return nref(*n); } break;
       case 4: if (auto n = usings.pick(op.a[1])) {
             if (scope_refs.empty()) break;
@@ -694,7 +693,7 @@ Ref World::apply_forms_misc(const Op& op)
          } break;
       case 1: if (auto l = lambdas.pick(op.a[1])) { const ipr::Expr& x = Eo(op.a[2], nref(*l)); l->body = &x; if (Rec* rc = rec(nref(*l))) rc->exp.set_r("result", nref(x)); return nref(*l); } break;
       case 2: if (auto l = lambdas.pick(op.a[1])) { if (closures.empty()) break; impl::Closure* c = closures.pick(op.a[2]); l->typing = static_cast<const ipr::Closure*>(c); if (Rec* rc = rec(nref(*l))) rc->exp.set_r("type", nref(*c)); return nref(*l); } break;
-      case 3: if (auto l = lambdas.pick(op.a[1])) { const ipr::Type& t = T(op.a[2]); l->value_type = Optional<ipr::Type>(t); if (Rec* rc = rec(nref(*l))) rc->exp.set_r("target", nref(t)); return nref(*l); } break;
+      case 3: if (auto l = lambdas.pick(op.a[1])) { const ipr::Type& t = To(op.a[2], nref(*l)); l->value_type = Optional<ipr::Type>(t); if (Rec* rc = rec(nref(*l))) rc->exp.set_r("target", nref(t)); return nref(*l); } break;
       case 4: if (auto l = lambdas.pick(op.a[1])) {
             const ipr::Expr& x = Eo(op.a[2], nref(*l));
             l->decl_constraint = Optional<ipr::Expr>(x); l->eh = Optional<ipr::Expr>(x); l->lam_spec = ipr::Lambda_specifiers(uint64_t(op.a[3]) % 8);
